@@ -33,7 +33,8 @@ Inductive depfun :=
 | DIntRangeLo (hi : Z)         (* lambda a: IntRange(a, hi) *)
 | DIntRangeHi (lo : Z)         (* lambda a: IntRange(lo, a) *)
 | DVarRangeOf                  (* lambda xs: VarRange(xs)        (xs: a sibling list) *)
-| DListSizeUpTo.               (* lambda n: ListSizeBetween(0, n) *)
+| DListSizeUpTo                (* lambda n: ListSizeBetween(0, n) *)
+| DIntRange2.                  (* lambda a, b: IntRange(b - a, b)   (two dependencies, in the order named) *)
 
 Inductive mh :=
 | MIntRange (lo hi : Z)
@@ -45,7 +46,7 @@ Inductive mh :=
 | MStringSize (lo hi : Z) (alphabet : list Z)
 | MWeightedString (rows : list (list Q)) (alphabet : list Z)
 | MInterval (minlen maxlen top : Z)
-| MDependent (dep : nat) (f : depfun).           (* depends on sibling field number [dep] *)
+| MDependent (deps : list nat) (f : depfun).     (* depends on the sibling fields numbered [deps], in this order *)
 
 Inductive ty :=
 | TBase (b : base)
